@@ -22,6 +22,9 @@ pub enum EncCase {
     Zst { len: usize, shape: u8 },
     /// evolution metadata naming a field the declaration does not have
     UnknownField { kind: u8 },
+    /// a generated legal history whose metadata is then made to name a field that is never written: renamed, dropped
+    /// from the declaration while its FieldAdded step stays, or marked #[transient] without the FieldMadeTransient step
+    IllFormed { spec: vmodel::declgen::HistorySpec, mutation: u8, sel: u16 },
 }
 
 struct Claim {
@@ -147,6 +150,61 @@ pub fn check_c17(c: &EncCase, acc: &mut Acc, record: bool) -> Verdict {
                 other => Verdict::Fail(format!("serializing {len} unit values gave {other:?}")),
             }
         }
+        EncCase::IllFormed { spec, mutation, sel } => {
+            let versions = vmodel::declgen::build_history(spec, &vmodel::declgen::dynamic_menu(false));
+            let mut r = versions.last().unwrap().clone();
+            let serialized: Vec<String> = r.fields.iter().filter(|f| f.transient.is_none()).map(|f| f.name.clone()).collect();
+            let added: Vec<String> = r.steps.iter().filter_map(|s| match s { Step::Added { name, .. } if serialized.contains(name) => Some(name.clone()), _ => None }).collect();
+            let what = match mutation % 4 {
+                0 => {
+                    match r.steps.iter_mut().find(|s| matches!(s, Step::MadeOptional { .. })) {
+                        Some(Step::MadeOptional { name }) => *name = "nope".into(),
+                        _ => r.steps.push(Step::MadeOptional { name: "nope".into() }),
+                    }
+                    "a FieldMadeOptional step renamed to a name no step or field knows"
+                }
+                1 if !added.is_empty() => {
+                    let name = added[vmodel::gen::pick(*sel, added.len())].clone();
+                    r.fields.retain(|f| f.name != name);
+                    r.steps.push(Step::MadeOptional { name });
+                    "a field with a FieldAdded step dropped from the declaration, then FieldMadeOptional on it"
+                }
+                2 if !serialized.is_empty() => {
+                    let name = serialized[vmodel::gen::pick(*sel, serialized.len())].clone();
+                    for f in r.fields.iter_mut() {
+                        if f.name == name {
+                            f.transient = Some(vmodel::declgen::sample_val(&f.ty, ValCfg { max_len: 2, long: false, ..ValCfg::default() }, *sel as u64));
+                        }
+                    }
+                    r.steps.push(Step::MadeOptional { name });
+                    "a field marked transient without FieldMadeTransient, then FieldMadeOptional on it"
+                }
+                _ => {
+                    r.steps.push(Step::MadeOptional { name: String::new() });
+                    "FieldMadeOptional on the empty name"
+                }
+            };
+            if r.steps.len() > 254 {
+                return Verdict::Skip;
+            }
+            let ty = Ty::Adt(struct_decl(&format!("DynIll{:08x}", hash_json(c) as u32), &r));
+            let val = vmodel::declgen::sample_val(&ty, ValCfg { max_len: 2, long: false, ..ValCfg::default() }, *sel as u64 ^ 0x5a5a);
+            let res = guarded(|| vcat::encode(&ty, &val));
+            let model = ref_encode(&ty, &val);
+            if record {
+                let class = format!("ill-formed metadata: {what}");
+                acc.case(&class, hash_json(c), model.is_err());
+                if acc.wants_sample(&class) {
+                    acc.sample(&class, json!({"steps": format!("{:?}", r.steps), "fields": r.fields.iter().map(|f| f.name.clone()).collect::<Vec<_>>(), "result": format!("{:?}", res.as_ref().map(|x| x.0.as_ref().map(|b| hex(&b[..b.len().min(24)]))))}));
+                }
+            }
+            match (res, &model) {
+                (Err(p), _) => Verdict::Fail(format!("encoding a record with {what} panicked: {p} (steps {:?})", r.steps)),
+                (Ok((Ok(b), _)), Ok(m)) if b == m.bytes => Verdict::Pass,
+                (Ok((Err(e), _)), Err(m)) if model_err_matches(&e, m) => Verdict::Pass,
+                (Ok((o, _)), m) => Verdict::Fail(format!("a record with {what}: encoding gave {:?}, expected {:?} (steps {:?}, fields {:?})", o.as_ref().map(|b| hex(b)), m.as_ref().map(|f| hex(&f.bytes)), r.steps, r.fields.iter().map(|f| &f.name).collect::<Vec<_>>())),
+            }
+        }
         EncCase::UnknownField { kind } => {
             let step = match kind % 3 {
                 0 => Step::MadeOptional { name: "nope".into() },
@@ -225,6 +283,7 @@ fn case_strategy() -> proptest::strategy::BoxedStrategy<EncCase> {
         // (a count of exactly i32::MAX is legal and would be iterated 2^31 times: the boundary itself is covered by Iter)
         1 => (prop_oneof![0usize..100, Just(100_000usize), Just(i32::MAX as usize + 1), Just(3_000_000_000usize), Just(4_294_967_296usize), Just(usize::MAX)], 0u8..3).prop_map(|(len, shape)| EncCase::Zst { len, shape }),
         1 => (0u8..3).prop_map(|kind| EncCase::UnknownField { kind }),
+        2 => (vmodel::declgen::history_spec_strategy(4, 6), any::<u8>(), any::<u16>()).prop_map(|(spec, mutation, sel)| EncCase::IllFormed { spec, mutation, sel }),
     ]
     .boxed()
 }
